@@ -1734,6 +1734,11 @@ func genListener(g *common.Gen, r *common.Rand, tcp bool, old bool) {
 		if r.Chance(1, 3) {
 			size = r.Range(0, 8700)
 		}
+		if !tcp && j < n-2 && (j == n/3 || r.Chance(1, 8)) {
+			// a WebSocket message beyond the NDN packet size limit: dropped, the messages after it still arrive
+			size = common.Pick(r, []int{8790, 8800, 8900, 9000, 20000, 70000})
+			g.Stat("ws-message-oversize")
+		}
 		g.Op("blk 8 %d %d", size, r.Range(0, 40))
 		g.Stat("blk")
 		if !tcp {
